@@ -55,6 +55,8 @@ def build_arg(desc):
         return [(repr(desc["value"]), desc["value"])]
     if k == "none":
         return [("None", None)]
+    if k == "strs":
+        return [(repr(v), v) for v in desc["values"]]
     if k == "other":
         return [("object()", specrt.Witness())]
     if k == "pregex":
